@@ -11,6 +11,7 @@ D-c  direct-child predicate: a predicate is ignored iff it starts with one of th
 Undecided: equality of complete outputs with extraction from the restricted document (a relation between two runs)."""
 import ast
 from ..core import walk_own, norm
+from ..core import AnalysisError
 from ..report import Ob, Floor
 from ..rules import twin, plumb
 from ..abseval import Evaluator, Opaque
@@ -111,17 +112,26 @@ def filter_placement(ctx, clause):
                   "namespaces_to_ignore is forwarded to get_instance_tracker: instantiation triples whose predicate lies in an ignored "
                   "namespace are no longer seen, so class membership is not read from the full graph"))
     filt = p.find_class("FilterNamespacesTriplesYielder")
-    init_f = filt.methods["__init__"]
+    init_f = filt.find_method("__init__")
+    if init_f is None:
+        raise AnalysisError("FilterNamespacesTriplesYielder.__init__ vanished")
     ok = g.var(init_f, "namespaces_to_ignore") in T
     obs.append(Ob(clause, "R-PLUMB", "R-PLUMB|namespaces_to_ignore|filter", init_f.loc(), ok,
                   "the value reaches FilterNamespacesTriplesYielder"))
-    # the filter wraps the yielder and negates the direct-child predicate
-    pf = filt.methods["_pass_filters"]
-    src = norm(pf.node.body[-1])
-    ok = src.startswith("return not check_if_property_belongs_to_namespace_list(")
-    obs.append(Ob(clause, "R-PLUMB", "R-PLUMB|namespaces_to_ignore|filter-polarity", pf.loc(), ok,
+    # the filter wraps the yielder and lets a triple pass iff its predicate is not a direct child of an ignored namespace:
+    # yield_triples interpreted over an inner reader that hands out one triple of each kind (whatever helpers the class has)
+    yt = filt.find_method("yield_triples")
+    if yt is None:
+        raise AnalysisError("FilterNamespacesTriplesYielder.yield_triples vanished")
+    ev = Evaluator(ctx, max_depth=10)
+    t_in, t_out, t_deep = ("s", "http://ignored.org/p", "o"), ("s", "http://kept.org/p", "o"), ("s", "http://ignored.org/deeper/p", "o")
+    env = {"self._actual_triple_yielder": {"yield_triples()": [t_in, t_out, t_deep]}, "self._namespaces_to_ignore": ["http://ignored.org/"]}
+    outs = ev.outcomes(yt, {}, env)
+    got = [tuple(x) for x in outs[0][1]] if len(outs) == 1 and outs[0][0] == "return" and isinstance(outs[0][1], (list, tuple)) else None
+    ok = got == [t_out, t_deep]
+    obs.append(Ob(clause, "R-PLUMB", "R-PLUMB|namespaces_to_ignore|filter-polarity", yt.loc(), ok,
                   "a triple passes the filter iff its predicate is not a direct child of an ignored namespace" if ok else
-                  "filter polarity changed: `%s`" % src[:80]))
+                  "filter over (ignored, kept, one level deeper) lets pass %s, expected the last two" % (got if got is not None else outs,)))
     return obs
 
 
